@@ -22,7 +22,7 @@ func init() {
 	gens["C01"] = func(m *M, pick func(q, t int) int, shards int) {
 		// full-width multiplications dominate the validator's time: one per trace file
 		m.perFile = 1
-		genC01(m, pick(24, 256), 0)
+		genC01(m, pick(48, 400), 0)
 		perFile(m, pick(60, 2000)*5, shards)
 		genC01(m, 0, pick(60, 2000))
 	}
@@ -33,10 +33,10 @@ func init() {
 			f(m, total)
 		}
 	}
-	gens["C02"] = simple(genC02, 800, 40000)
+	gens["C02"] = simple(genC02, 1600, 40000)
 	gens["C03"] = simple(genC03, 2500, 60000)
-	gens["C04"] = simple(genC04, 700, 20000)
-	gens["C05"] = simple(genC05, 600, 20000)
+	gens["C04"] = simple(genC04, 1200, 20000)
+	gens["C05"] = simple(genC05, 1700, 20000)
 	gens["C06"] = simple(genC06, 3000, 100000)
 	gens["C07"] = simple(genC07, 900, 20000)
 	gens["C08"] = simple(genC08, 70, 1500)
